@@ -517,6 +517,16 @@ package helper
 //@ requires consumed(rows) == 0
 //@ guarantees[C11] "write-replaces-previous-content" result == nil ==> ftrunc(res(os_OpenFile, 0, 0)) == 1 && fappend(res(os_OpenFile, 0, 0)) == 0
 
+//@ func NewCsv
+//@ trusted reflection over the row struct (column table): outside the verifier's subset
+
+// the header is written exactly when the file is created or was empty: rows are appended without a header only to a
+// file that os.Stat found with content (FileSystemRepository.Append relies on this)
+//@ func AppendOrWriteToCsvFile
+//@ requires consumed(rows) == 0
+//@ guarantees[C10,C11] "header-less-append-only-to-a-file-with-content" ncalled(Csv_AppendToFile) > 0 ==> res(os_Stat, 0, 1) == nil && res(fs_FileInfo_Size, 0) > 0
+//@ guarantees[C10,C11] "one-write" result == nil ==> ncalled(Csv_AppendToFile) + ncalled(Csv_WriteToFile) == 1
+
 //@ func Csv.AppendToFile
 //@ requires consumed(rows) == 0
 //@ guarantees[C11] "append-keeps-existing-rows" result == nil ==> fappend(res(os_OpenFile, 0, 0)) == 1 && ftrunc(res(os_OpenFile, 0, 0)) == 0
